@@ -920,7 +920,9 @@ def _transform(
     numpy.ndarray
         (M,N) numpy.ndarray encoding the persistence image corresponding to pers_dgm.
     """
-    pers_dgm = np.copy(pers_dgm)
+    # private double precision copy: persistence and weights of narrow or unsigned
+    # integer diagrams would otherwise be formed (and wrap around) in that dtype
+    pers_dgm = np.array(pers_dgm, dtype=np.float64)
     pers_img = np.zeros(resolution)
     n = pers_dgm.shape[0]
     general_flag = True
